@@ -67,6 +67,7 @@ func main() {
 	out := flag.String("out", "/verif/.build/overlay", "output dir")
 	verifDir := flag.String("verif", "/verif", "module dir to load packages from")
 	disable := flag.String("disable", "", "comma separated import swaps to disable (e.g. net)")
+	modfile := flag.String("modfile", "", "alternative go.mod (scratch kraken trees)")
 	flag.Parse()
 	for _, d := range strings.Split(*disable, ",") {
 		delete(importSwap, strings.TrimSpace(d))
@@ -77,6 +78,9 @@ func main() {
 		Mode: packages.NeedName | packages.NeedFiles | packages.NeedSyntax | packages.NeedTypes | packages.NeedTypesInfo | packages.NeedCompiledGoFiles | packages.NeedImports,
 		Dir:  *verifDir,
 		Env:  append(os.Environ(), "GOFLAGS=-mod=mod", "GOPROXY=off", "GOSUMDB=off"),
+	}
+	if *modfile != "" {
+		cfg.Env = append(os.Environ(), "GOFLAGS=-mod=mod -modfile="+*modfile, "GOPROXY=off", "GOSUMDB=off")
 	}
 	pkgs, err := packages.Load(cfg, krakenPrefix+"...")
 	if err != nil {
@@ -126,6 +130,7 @@ func main() {
 		}
 	}
 	b, _ := json.MarshalIndent(map[string]any{"Replace": overlay}, "", " ")
+	os.MkdirAll(*out, 0o755)
 	os.WriteFile(filepath.Join(*out, "..", "overlay.json"), b, 0o644)
 	cb, _ := json.MarshalIndent(cs, "", " ")
 	os.WriteFile(filepath.Join(*out, "..", "census.json"), cb, 0o644)
